@@ -254,14 +254,25 @@ func (*Ufs) ConnClosed(conn *Conn) {
 	}
 }
 
+// ufsFidOf returns the per-fid state, or nil if the fid has none: a fid that
+// is still being created by a Twalk/Tattach in progress can already be named by
+// a pipelined request.
+func ufsFidOf(sfid *SrvFid) *ufsFid {
+	if sfid == nil {
+		return nil
+	}
+	fid, _ := sfid.Aux.(*ufsFid)
+	return fid
+}
+
 func (*Ufs) FidDestroy(sfid *SrvFid) {
 	var fid *ufsFid
 
-	if sfid.Aux == nil {
+	fid = ufsFidOf(sfid)
+	if fid == nil {
 		return
 	}
 
-	fid = sfid.Aux.(*ufsFid)
 	if fid.file != nil {
 		_ = fid.file.Close()
 	}
@@ -294,7 +305,11 @@ func (ufs *Ufs) Attach(req *SrvReq) {
 func (*Ufs) Flush(req *SrvReq) {}
 
 func (*Ufs) Walk(req *SrvReq) {
-	fid := req.Fid.Aux.(*ufsFid)
+	fid := ufsFidOf(req.Fid)
+	if fid == nil {
+		req.RespondError(Eunknownfid)
+		return
+	}
 	tc := req.Tc
 
 	// any number of walks may start from one fid at the same time:
@@ -308,7 +323,11 @@ func (*Ufs) Walk(req *SrvReq) {
 		req.Newfid.Aux = new(ufsFid)
 	}
 
-	nfid := req.Newfid.Aux.(*ufsFid)
+	nfid := ufsFidOf(req.Newfid)
+	if nfid == nil {
+		req.RespondError(Eunknownfid)
+		return
+	}
 	wqids := make([]Qid, len(tc.Wname))
 	path := fid.path
 	i := 0
@@ -337,7 +356,11 @@ func (*Ufs) Walk(req *SrvReq) {
 }
 
 func (*Ufs) Open(req *SrvReq) {
-	fid := req.Fid.Aux.(*ufsFid)
+	fid := ufsFidOf(req.Fid)
+	if fid == nil {
+		req.RespondError(Eunknownfid)
+		return
+	}
 	tc := req.Tc
 	err := fid.stat()
 	if err != nil {
@@ -356,7 +379,11 @@ func (*Ufs) Open(req *SrvReq) {
 }
 
 func (*Ufs) Create(req *SrvReq) {
-	fid := req.Fid.Aux.(*ufsFid)
+	fid := ufsFidOf(req.Fid)
+	if fid == nil {
+		req.RespondError(Eunknownfid)
+		return
+	}
 	tc := req.Tc
 	err := fid.stat()
 	if err != nil {
@@ -387,7 +414,11 @@ func (*Ufs) Create(req *SrvReq) {
 			return
 		}
 
-		e = os.Link(ofid.Aux.(*ufsFid).path, path)
+		if ufid := ufsFidOf(ofid); ufid != nil {
+			e = os.Link(ufid.path, path)
+		} else {
+			e = syscall.ENOENT
+		}
 		ofid.DecRef()
 
 	case tc.Perm&DMNAMEDPIPE != 0:
@@ -433,7 +464,11 @@ func (*Ufs) Create(req *SrvReq) {
 }
 
 func (*Ufs) Read(req *SrvReq) {
-	fid := req.Fid.Aux.(*ufsFid)
+	fid := ufsFidOf(req.Fid)
+	if fid == nil {
+		req.RespondError(Eunknownfid)
+		return
+	}
 	tc := req.Tc
 	rc := req.Rc
 	err := fid.stat()
@@ -518,7 +553,11 @@ func (*Ufs) Read(req *SrvReq) {
 }
 
 func (*Ufs) Write(req *SrvReq) {
-	fid := req.Fid.Aux.(*ufsFid)
+	fid := ufsFidOf(req.Fid)
+	if fid == nil {
+		req.RespondError(Eunknownfid)
+		return
+	}
 	tc := req.Tc
 	err := fid.stat()
 	if err != nil {
@@ -538,7 +577,11 @@ func (*Ufs) Write(req *SrvReq) {
 func (*Ufs) Clunk(req *SrvReq) { req.RespondRclunk() }
 
 func (*Ufs) Remove(req *SrvReq) {
-	fid := req.Fid.Aux.(*ufsFid)
+	fid := ufsFidOf(req.Fid)
+	if fid == nil {
+		req.RespondError(Eunknownfid)
+		return
+	}
 	err := fid.stat()
 	if err != nil {
 		req.RespondError(err)
@@ -555,7 +598,11 @@ func (*Ufs) Remove(req *SrvReq) {
 }
 
 func (*Ufs) Stat(req *SrvReq) {
-	fid := req.Fid.Aux.(*ufsFid)
+	fid := ufsFidOf(req.Fid)
+	if fid == nil {
+		req.RespondError(Eunknownfid)
+		return
+	}
 	err := fid.stat()
 	if err != nil {
 		req.RespondError(err)
@@ -591,7 +638,11 @@ func lookup(uid string, group bool) (uint32, *Error) {
 }
 
 func (u *Ufs) Wstat(req *SrvReq) {
-	fid := req.Fid.Aux.(*ufsFid)
+	fid := ufsFidOf(req.Fid)
+	if fid == nil {
+		req.RespondError(Eunknownfid)
+		return
+	}
 	err := fid.stat()
 	if err != nil {
 		req.RespondError(err)
